@@ -17,6 +17,7 @@ PROPS = {
             ['from_bytes(m.bytes()|m.bin(), time=m.time) == m', 'P'],
             ['from_hex(m.hex(sep)) == m', 'B'],
             ['the list bytes() returns is new on every call and owned by the caller', 'P'],
+            ['a decoded message does not depend on what callers did with earlier results: decode, edit every attribute of the result, decode again (18 types x 5 routes x 3 times)', 'B'],
         ],
         assumptions=[],
         trusted_base=[],
@@ -66,7 +67,9 @@ PROPS = {
             ['one real-time message per defined real-time byte, in order (step lemma)', 'P'],
             ['bytes of other messages form a subsequence of the input (step lemma + Sublist axioms in Lean)', 'P'],
             ['whole streams: kept bytes (tokens ++ partial message) are a subsequence of history ++ data; real-time tokens == '
-             'defined real-time bytes of data in order; loop invariant of the real Tokenizer.feed with ghost history, any length', 'P'],
+             'defined real-time bytes of data in order; loop invariant of the real Tokenizer.feed with ghost history, any length, data given as '
+             'list / bytes / bytearray / tuple, tokens queued by feed outside its loop included', 'P'],
+            ['every message a parser queues was built by that call (never an object shared with other calls)', 'P'],
         ],
         assumptions=['the Sublist predicate is used through instances of A1..A3 only (uninterpreted in z3)',
                      'correspondence between the z3 Sublist axioms and the Lean statements A0..A3 (by inspection)'],
@@ -117,6 +120,7 @@ PROPS = {
         clauses=[
             ['any WF state + enc(M) for the 17 fixed-length types => exactly M queued, no partial left', 'P'],
             ['sysex with inserted real-time bytes, any length', 'P'],
+            ['the message queued for M is a new object built by the call (not a prebuilt object shared by all parsers)', 'P'],
             ['P ++ enc(M) -> messages of P then M; concatenation of encoded messages parses back: induction over the list in Lean '
              'from the fold contract and the resynchronisation contracts', 'P (hypothesis correspondence by inspection)'],
         ],
@@ -370,6 +374,7 @@ PROPS = {
         clauses=[
             ['queue and device only touched under the owning lock, all public operations, 4 port classes', 'P (K2: IOPort)'],
             ['send hands exactly one fresh equal copy to the device (C11.send), original unchanged', 'P'],
+            ['fan-in: MultiPort._receive queues everything it polls, in per-port order, behind what is queued, and returns nothing past the queue', 'P'],
             ['serialisability of critical sections => exactly-once / FIFO under all interleavings', 'assumed meta-theorem'],
             ['real threads: 1-3 senders x 1-2 receivers, sampled schedules', 'B'],
         ],
